@@ -6,6 +6,7 @@
 import GojaModel.C09.Lemmas
 import GojaModel.C09.MechLemmas
 import GojaModel.C09.Link
+import GojaModel.C09.Layout
 import GojaModel.C09.Async
 
 namespace GojaModel.C09
@@ -457,5 +458,193 @@ theorem old_returning_loop_pops_garbage_prefix_witness (g : Mech.Gen) (throwing 
   constructor
   · split <;> simp
   · trivial
+
+end GojaModel.C09
+
+namespace GojaModel.C09
+
+/-! ## `yield*` delegation corner cases (§15.5.5 step 7; func.go generatorObject.next / throw / _return) -/
+
+/-- throw(e) while delegating to an iterator WITHOUT a `throw` method: the iterator is closed (its `return()` is called
+if it has one) and a TypeError — or the error `return()` itself raised — is thrown at the `yield*` point, inside the
+body (so the body's handlers see it). -/
+theorem delegate_missing_throw_closes_then_typeerror (it : IterState) (c : Conf) (e : Val) (h : it.spec.hasThrow = false) :
+    delegCmd it ⟨.throw, e⟩ c
+      = .cont { c with ctl := .abrupt (.thr (match (iterClose it).2 with | some x => x | none => .terr)) } (iterClose it).1 := by
+  simp only [delegCmd, h]
+  generalize iterClose it = cl
+  obtain ⟨ev, err⟩ := cl
+  cases err <;> simp
+
+/-- return(v) while delegating to an iterator WITHOUT a `return` method: the return completion continues in the body
+with v (pending finally blocks run), the iterator is not touched. -/
+theorem delegate_missing_return_returns (it : IterState) (c : Conf) (v : Val) (h : it.spec.hasReturn = false) :
+    delegCmd it ⟨.ret, v⟩ c = .cont { c with ctl := .abrupt (.ret v) } [] := by
+  simp [delegCmd, h]
+
+/-- return(v) while delegating to an iterator whose `return()` answers a non-object: TypeError at the `yield*` point. -/
+theorem delegate_return_nonobject_typeerror (it : IterState) (c : Conf) (v : Val)
+    (hg : it.spec.isGen = false) (h : it.spec.ret = 3) :
+    delegCmd it ⟨.ret, v⟩ c = .cont { c with ctl := .abrupt (.thr .terr) } [it.spec.tag ++ "r" ++ showVal v] := by
+  simp [delegCmd, IterSpec.hasReturn, iterReturn, hg, h]
+
+/-- throw(e) while delegating to an iterator whose `throw()` answers a non-object: TypeError at the `yield*` point. -/
+theorem delegate_throw_nonobject_typeerror (it : IterState) (c : Conf) (e : Val)
+    (hg : it.spec.isGen = false) (h : it.spec.thr = 4) :
+    delegCmd it ⟨.throw, e⟩ c = .cont { c with ctl := .abrupt (.thr .terr) } [it.spec.tag ++ "t" ++ showVal e] := by
+  simp [delegCmd, IterSpec.hasThrow, iterThrow, hg, h]
+
+/-- The same iterator closed by a loop exit (IteratorClose): a non-object result of `return()` is a TypeError that
+replaces every completion except a throw. -/
+theorem close_nonobject_is_typeerror (it : IterState) (hg : it.spec.isGen = false) (h : it.spec.ret = 3) :
+    iterClose it = ([it.spec.tag ++ "r" ++ showVal .undef], some .terr) := by
+  simp [iterClose, IterSpec.hasReturn, iterReturn, hg, h]
+
+/-- A re-entrant next()/throw()/return() on the generator made from inside its delegate's (or its for-of iterator's)
+method is rejected with a TypeError whatever the command: the generator is running (GeneratorValidate). -/
+theorem delegate_reentry_typeerror (kd : CmdKind) : reentOutcome kd = .terr := by
+  cases kd <;> rfl
+
+/-- … and that is what such an iterator observes and logs on its second `next()`. -/
+theorem reentrant_iterator_logs_typeerror (st : IterState) (v : Val) (kd : CmdKind)
+    (hk : st.spec.reentKind = some kd) (hp : st.pos = 1) (hl : 1 < st.spec.items.length) :
+    (iterNext st v).1 = [st.spec.tag ++ "n" ++ showVal v, st.spec.tag ++ "x" ++ showVal .terr] := by
+  have hg : st.spec.isGen = false := by
+    cases hgen : st.spec.isGen
+    · rfl
+    · simp [IterSpec.reentKind, hgen] at hk
+  have hsome : ∃ x, st.spec.items[st.pos]? = some x := by
+    rw [hp]; exact ⟨st.spec.items[1], by simp [hl]⟩
+  obtain ⟨x, hx⟩ := hsome
+  simp [iterNext, hk, hp, hl, hg, delegate_reentry_typeerror, hx, hp ▸ hx]
+
+/-- A value yielded by the delegate passes through unchanged and the generator stays suspended, still delegating;
+when the delegate is done its result value becomes the value of the `yield*` expression. -/
+theorem delegate_next_passes_through (it : IterState) (c : Conf) (v : Val) :
+    delegCmd it ⟨.next, v⟩ c =
+      (match iterNext it v with
+       | (ev, .yielded w it') => .yielded w c (some it') ev
+       | (ev, .done w) => .cont { c with ctl := .val w } ev
+       | (ev, .threw e) => .cont { c with ctl := .abrupt (.thr e) } ev) := by
+  simp only [delegCmd]
+  generalize iterNext it v = r
+  obtain ⟨ev, o⟩ := r
+  cases o <;> rfl
+
+end GojaModel.C09
+
+namespace GojaModel.C09
+
+/-! ## uint32 / int32 wrap-around of the saved offsets
+
+goja keeps `tf.iterLen`, `tf.refLen`, `tf.callStackLen` as `uint32` and `tf.sp` as `int32`; `suspend` subtracts the old
+base and `resume` adds the new one in that arithmetic (vm.go:77-79, 101-104).  `Mech` uses `Nat` with truncated
+subtraction.  The two agree as long as the RESULT is below 2^32 (2^31 for `sp`): Go's wrap-around arithmetic is
+addition modulo 2^32, so even a transient under-flow of the intermediate value is harmless. -/
+
+def sub32 (a b : Nat) : Nat := (a + 4294967296 - b % 4294967296) % 4294967296     -- uint32 `a - b`
+def add32 (a b : Nat) : Nat := (a + b) % 4294967296                                -- uint32 `a + b`
+
+/-- Under the frame discipline (`b ≤ a`: the frame was pushed above the generator's base) and a result below 2^32 the
+machine arithmetic of suspend-then-resume is exactly the `Nat` arithmetic of the model. -/
+theorem wrap_rebase_exact (a b c : Nat) (ha : a < 4294967296) (hb : b ≤ a) (hr : a - b + c < 4294967296) :
+    add32 (sub32 a b) c = a - b + c := by
+  unfold add32 sub32; omega
+
+/-- Without any discipline the composition is still the modular sum `a - b + c (mod 2^32)`: an under-flowing
+intermediate value does not corrupt the result. -/
+theorem wrap_rebase_modular (a b c : Nat) (ha : a < 4294967296) (hb : b < 4294967296) :
+    add32 (sub32 a b) c = (a + c + 4294967296 - b) % 4294967296 := by
+  unfold add32 sub32; omega
+
+/-- `int32 tf.sp` (two's complement residues): exact below 2^31. -/
+theorem wrap_rebase_exact_int32 (a b c : Nat) (ha : a < 2147483648) (hb : b ≤ a) (hr : a - b + c < 2147483648) :
+    add32 (sub32 a b) c = a - b + c ∧ add32 (sub32 a b) c < 2147483648 := by
+  unfold add32 sub32; omega
+
+end GojaModel.C09
+
+namespace GojaModel.C09
+
+/-! ## Compiler layout: `Link.encode` of the continuation is an invariant, not an assumption (Layout.lean)
+
+Given the instruction scheme of compiler_stmt.go:105 `compileTryStatement` / `emitBlockExitCode` and the transcribed
+effects of `try`, `leaveTry`, `enterFinally`, `leaveFinally`, `handleThrow`, `enterNextFinallyFrame` on the top try frame
+(`Link.LayoutOp`), the layout on which the dispatch theorems rest is maintained by every step of the spec machine. The
+correspondence `corr:layout-encode` compares it with goja's saved try stack at every suspension. -/
+
+/-- Every machine step changes the layout by one try-frame instruction effect (push / pop / disarm catch / disarm both)
+or leaves it alone. -/
+theorem layout_closed_under_steps (spOf : Nat → Nat) (c c' : Conf) (ev : List Event) (h : step c = .cont c' ev) :
+    Link.LayoutOp (Link.encode spOf c.k) (Link.encode spOf c'.k) :=
+  Link.layout_step spOf c c' ev h
+
+/-- A suspension (yield, or a delegate's yield) leaves the layout untouched. -/
+theorem layout_untouched_by_suspension (spOf : Nat → Nat) (c c' : Conf) (v : Val) (d : Option IterState) (ev : List Event)
+    (h : step c = .yielded v c' d ev) : Link.encode spOf c'.k = Link.encode spOf c.k :=
+  Link.layout_yield spOf c c' v d ev h
+
+/-- After ANY driver history from ANY generator state, if the generator is suspended, the layout of its continuation was
+produced from the one it started with by try-frame instruction effects only (from the empty layout for a fresh
+generator). -/
+theorem layout_invariant_over_histories (spOf : Nat → Nat) (fuel : Nat) (h : List Cmd) (g : GState) (c' : Conf)
+    (d' : Option IterState) (hs : stateAfter fuel g h = .susp c' d') :
+    Link.LayoutOps (Link.encode spOf (Link.kOf g)) (Link.encode spOf c'.k) :=
+  Link.history_layout spOf fuel h g c' d' hs
+
+example (body : List Stmt) : Link.encode (fun _ => 0) (Link.kOf (GState.init body)) = [] := rfl
+
+end GojaModel.C09
+
+namespace GojaModel.C09
+
+/-- `try` entry pushes a frame with catch armed iff a catch clause exists, finally armed iff a finally block exists. -/
+theorem layout_try_entry (spOf : Nat → Nat) (b : List Stmt) (cc : Option (Nat × List Stmt)) (fin : Option (List Stmt))
+    (rest : List Stmt) (env : List Val) (k : List Frame) :
+    ∃ c', step { ctl := .exec (.tryS b cc fin :: rest), env := env, k := k } = .cont c' [] ∧
+      Link.encode spOf c'.k = Link.encode spOf k ++
+        [Link.mkTF spOf (Link.countTryish k) (Link.countForOf k) (Link.countBlk k)
+           (if cc.isSome then 2 * (Link.countTryish k : Int) else -1) (if fin.isSome then 2 * (Link.countTryish k : Int) + 1 else -1)] :=
+  Link.try_entry_pushes_frame spOf b cc fin rest env k
+
+/-- A caught exception disarms the catch only; the finally stays armed. -/
+theorem layout_caught_exception (spOf : Nat → Nat) (v : Val) (x : Nat) (cb : List Stmt) (fin : Option (List Stmt))
+    (env : List Val) (k : List Frame) :
+    ∃ c', step { ctl := .abrupt (.thr v), env := env, k := .tryK (some (x, cb)) fin :: k } = .cont c' [] ∧
+      Link.encode spOf c'.k = Link.encode spOf k ++
+        [Link.mkTF spOf (Link.countTryish k) (Link.countForOf k) (Link.countBlk k) (-1)
+           (if fin.isSome then 2 * (Link.countTryish k : Int) + 1 else -1)] :=
+  Link.caught_exception_disarms_catch_only spOf v x cb fin env k
+
+/-- Every way into a finally block leaves the frame on the try stack with both handlers disarmed (repairs 379f30d and
+8004794 are exactly this statement for `enterFinally` and `enterNextFinallyFrame`). -/
+theorem layout_finally_entry (spOf : Nat → Nat) (cc : Option (Nat × List Stmt)) (fb : List Stmt) (env : List Val)
+    (k : List Frame) (v : Val) (cp : Completion) (hcp : isThr cp = false) :
+    (∃ c', step { ctl := .val v, env := env, k := .tryK cc (some fb) :: k } = .cont c' [] ∧
+        Link.encode spOf c'.k = Link.encode spOf k ++ [Link.mkTF spOf (Link.countTryish k) (Link.countForOf k) (Link.countBlk k) (-1) (-1)]) ∧
+    (∃ c', step { ctl := .abrupt cp, env := env, k := .tryK cc (some fb) :: k } = .cont c' [] ∧
+        Link.encode spOf c'.k = Link.encode spOf k ++ [Link.mkTF spOf (Link.countTryish k) (Link.countForOf k) (Link.countBlk k) (-1) (-1)]) :=
+  Link.finally_entry_disarms_both spOf cc fb env k v cp hcp
+
+end GojaModel.C09
+
+namespace GojaModel.C09
+
+/-- State-level refinement of exception dispatch: after `handleThrow` the caller's try frames are untouched and the
+generator-owned ones carry exactly the handler-arming pattern of the layout of the spec continuation AFTER the spec's own
+unwinding has delivered the exception (`Link.specAfterThrow`), for any continuation, placement and number of popped frames. -/
+theorem mech_throw_dispatch_refines_spec_state (ex : Nat) (v : Val) (spOf : Nat → Nat) (f : Mech.TryFrame → Mech.TryFrame)
+    (hf : ∀ tf, (f tf).catchPos = tf.catchPos ∧ (f tf).finallyPos = tf.finallyPos) (k k' : List Frame)
+    (vm : Mech.VM) (lo : List Mech.TryFrame) (hvm : vm.tryStack = lo ++ (Link.encode spOf k).map f)
+    (hs : Link.specAfterThrow v k = some k') :
+    (Mech.handleThrow ex vm).2.2.tryStack.take lo.length = lo ∧
+    ((Mech.handleThrow ex vm).2.2.tryStack.drop lo.length).map Link.arming = ((Link.encode spOf k').map f).map Link.arming :=
+  Link.handleThrow_layout_refines_spec ex v spOf f hf k vm lo k' hvm hs
+
+/-- (test) `specAfterThrow` is what `stepAbrupt` does at the catching frame. -/
+example (v : Val) (env : List Val) (k : List Frame) (x : Nat) (cb : List Stmt) (fin : Option (List Stmt)) :
+    ∃ env', step { ctl := .abrupt (.thr v), env := env, k := .tryK (some (x, cb)) fin :: k }
+      = .cont { ctl := .exec cb, env := env', k := (Link.specAfterThrow v (.tryK (some (x, cb)) fin :: k)).getD [] } [] :=
+  ⟨_, rfl⟩
 
 end GojaModel.C09
